@@ -72,6 +72,14 @@ EXEMPT = {
     ('PingFrame.serialize_body', 'InvalidFrameError'): 'as above',
 }
 
+# Assertions that state a precondition which another rule decides at every
+# call site (so they are not counted as escaping AssertionError here).
+ASSERT_AS_PRECONDITION = {
+    'connection.H2Connection._prepare_for_sending':
+        'body_len <= max_outbound_frame_size: decided per emit site by the '
+        'frame-size budget rule (C02 ARITH.budget, reported under C02/C29)',
+}
+
 CONSUMERS = {'list', 'tuple', 'set', 'frozenset', 'sorted', 'all', 'any',
              'sum', 'min', 'max', 'dict'}
 CONSUMER_METHODS = {'join', 'extend', 'update'}
@@ -206,6 +214,12 @@ class Raises:
             return
         if isinstance(st, ast.Assert):
             self._expr(fi, st.test, frames, out)
+            if fi.qual in ASSERT_AS_PRECONDITION:
+                # decided at every call site by another rule
+                self.exempt_used.add((fi.qual, 'AssertionError'))
+                return
+            if id(st) in self.discharged:
+                return
             self._raise('AssertionError',
                         self._w(fi, st, 'assert ' + unparse(st.test)[:60]),
                         frames, out, fi)
@@ -243,6 +257,11 @@ class Raises:
             return
         if isinstance(st, ast.If):
             self._expr(fi, st.test, frames, out)
+            if self._type_guard_dead(fi, st.test):
+                # `if not isinstance(param, C): raise` where every call site
+                # passes a C: the body is unreachable
+                self._block(fi, st.orelse, frames, out, reraise)
+                return
             self._block(fi, st.body, frames, out, reraise)
             self._block(fi, st.orelse, frames, out, reraise)
             return
@@ -409,12 +428,38 @@ class Raises:
             if isinstance(c, ast.expr):
                 self._expr(fi, c, frames, out)
 
+    def _type_guard_dead(self, fi, test):
+        if not (isinstance(test, ast.UnaryOp) and
+                isinstance(test.op, ast.Not) and
+                isinstance(test.operand, ast.Call) and
+                isinstance(test.operand.func, ast.Name) and
+                test.operand.func.id == 'isinstance' and
+                len(test.operand.args) == 2):
+            return False
+        a, c = test.operand.args
+        if not (isinstance(a, ast.Name) and a.id in fi.params and
+                isinstance(c, ast.Name)):
+            return False
+        r = self.m.resolve_name(fi.module, c.id)
+        if not r or r[0] != 'class':
+            return False
+        t = self.r.param_types.get((fi.qual, a.id))
+        if not t:
+            return False
+        ok = all(x in (('enum', r[1].qual), ('inst', r[1].qual)) for x in t)
+        if ok:
+            self.exempt_used.add((fi.qual, 'isinstance(%s, %s)' % (a.id,
+                                                                   c.id)))
+        return ok
+
     def _partial(self, fi, node, kind, frames, out):
         """Subscript load / delete as a partial operation."""
         base_t = self.r.type_of(node.value, fi)
         # __getitem__ of an h2 class is an ordinary call
         for a in base_t:
             if a[0] == 'inst':
+                if id(node) in self.discharged:
+                    return
                 meth = self.m.lookup_method(
                     a[1], '__delitem__' if kind == 'del-subscript'
                     else '__getitem__')
